@@ -16,8 +16,9 @@ RULE = ('LISTS: (L1) every labelled list tree over {itemize,enumerate,descriptio
         '(<= S items in total), labelled by 3 kind rotations x 6 leaf-content rotations (menu plus quote-holding-a-list) x term pattern. '
         '(LS) under the article class, for d = 2..4: every chain (6 kind patterns; thorough: all 3^(d-1)) of d-1 single-item lists '
         'whose innermost item holds two sibling lists of 1-3 items each, all 9 kind pairs, with or without text around '
-        'them, an enumerate sibling also with \\setcounter{enum..}{4} before its first item; whenever a class is loaded every '
+        'them, an enumerate sibling also with \\setcounter{enum..}{4} before its first item; in every list of every family each '
         'item must carry position start+1.. in order (enumerate: a ref showing that number). '
+        '(LD) chains of depth 5 and 6 (3 kind rotations, 1-3 innermost items, every level with a following item), bare and article. '
         'TABLES: (T1) every preamble of n columns over column types x every subset of the n+1 bar positions x every '
         'spelling (plain, spaced, @{} at every gap on either side of a bar, >{..} before / <{..} after every column, every *{k}{unit} folding with 1- and 2-column units) x 3 bodies; '
         '(T2) every span layout of an n x r grid with <= 2 \\multicolumn cells (all spans, all positions, incl. span 1) x '
@@ -39,7 +40,7 @@ ASSUMPTIONS = [
     'expected to vanish and a rule written next to them to lie on the boundary between the nearest surviving rows',
     'item numbers: plasTeX steps its enum counter for every \\item of every list kind (also \\item[..]); the oracle '
     'asks for position 1..n in writing order, which is what the DOM offers to renderers (LaTeX itself would not '
-    'number itemize/description items nor \\item[..]); compared only when a document class has created the counters',
+    'number itemize/description items nor \\item[..])',
     '>{..} and <{..} carry declarations invisible to the observation (\\raggedright, \\relax): only "not a column, '
     'argument consumed" is checked, not whether the material is inserted into the cells',
     '\\cline ranges are restricted to unions of whole cells of both adjacent rows, so that a per-cell border '
@@ -112,10 +113,13 @@ def segments(node):
     return tuple(segs)
 
 
+_WITHREF = [False]      # set per case by judge(): reference texts are compared only in documents that load a class
+
+
 def observe_list(node):
     from plasTeX.DOM import Node
     items = []
-    # item numbers exist only when the document class has created LaTeX's enum counters
+    # item numbers exist when LaTeX's enum counters do (plasTeX's base macro set defines them)
     withpos = 'enumi' in node.ownerDocument.context.counters
     for c in node.childNodes:
         if c.nodeType == Node.TEXT_NODE:
@@ -131,7 +135,7 @@ def observe_list(node):
             if withpos:
                 ref = c.ref
                 reftext = ''.join(ref.textContent.split()) if ref is not None and hasattr(ref, 'textContent') else None
-                pos = (c.position, reftext if node.nodeName == 'enumerate' else None)
+                pos = (c.position, reftext if node.nodeName == 'enumerate' and _WITHREF[0] else None)
             items.append((term, pos, segments(c)))
         elif c.nodeName == 'par' and not c.textContent.strip():
             continue
@@ -208,6 +212,7 @@ def observe(src):
 def judge(case):
     """-> (verdict, fids, expected, observed, source)"""
     src, exp = R.build(case)
+    _WITHREF[0] = R.has_class(case)
     obs = observe(src)
     if obs == exp:
         return 'ok', [], exp, obs, src
@@ -657,6 +662,22 @@ def gen_LS(d, full):
                                     yield {'fam': 'list', 'ast': ast, 'article': 1}
 
 
+def gen_LD(dmax):
+    """lists nested deeper than 4 (LaTeX allows 6 levels when the kinds are mixed): a chain of depth 5..dmax, every level
+    with a second item after the nested list, innermost list with 1-3 items; 3 kind rotations, nest bare or with text"""
+    K = R.LIST_KINDS
+    for d in range(5, dmax + 1):
+        for rot in range(3):
+            for ninner in (1, 2, 3):
+                for ctype in ('NB', 'NT'):
+                    def kind(level):        # levels 5 and 6 never enumerate: LaTeX has no fifth enumerate format
+                        return K[(level + rot) % 3] if level < 4 else ('itemize', 'description')[(level + rot) % 2]
+                    ast = [kind(d - 1), [[0, 'P1', None] for _ in range(ninner)]]
+                    for level in range(d - 2, -1, -1):
+                        ast = [kind(level), [[0, ctype, ast], [0, 'P1', None]]]
+                    yield {'fam': 'list', 'ast': ast}
+
+
 def _sh_depth(sh):
     return 1 + max([_sh_depth(x) for x in sh if x is not None] or [0])
 
@@ -681,7 +702,7 @@ def gen_L2(depth, maxitems, total, min_total, min_width=1, min_depth=1, diag=0):
 
 # ---------------------------------------------------------------------------
 FAMILIES = {
-    'T1': gen_T1, 'T2': gen_T2, 'T2C': gen_T2C, 'T2V': gen_T2V, 'T5': gen_T5, 'T6': gen_T6, 'LS': gen_LS, 'T3': gen_T3, 'T3mc': gen_T3mc, 'T4': gen_T4,
+    'T1': gen_T1, 'T2': gen_T2, 'T2C': gen_T2C, 'T2V': gen_T2V, 'T5': gen_T5, 'T6': gen_T6, 'LS': gen_LS, 'LD': gen_LD, 'T3': gen_T3, 'T3mc': gen_T3mc, 'T4': gen_T4,
     'L1': gen_lists, 'L2': gen_L2,
 }
 
@@ -710,6 +731,8 @@ def plan(tier):
         p.append(('T6', (3,), 1, {}))
         for d in (2, 3, 4):
             p.append(('LS', (d, 0), 4, {}))
+        p.append(('LD', (6,), 1, {}))
+        p.append(('LD', (6,), 1, {'article': 1}))
         for n, r in ((2, 1), (2, 2), (3, 1), (3, 2)):
             p.append(('T2C', (n, r, 2, 0), 2, {}))
         p.append(('T3', (1, 1, KINDS_FULL), 1, {}))
@@ -753,6 +776,8 @@ def plan(tier):
         p.append(('T6', (4,), 4, {}))
         for d in (2, 3, 4):
             p.append(('LS', (d, 1), 16, {}))
+        p.append(('LD', (6,), 1, {}))
+        p.append(('LD', (6,), 1, {'article': 1}))
         p.append(('T3', (1, 1, KINDS_FULL), 1, {}))
         p.append(('T3', (2, 1, KINDS_FULL), 1, {}))
         p.append(('T3', (1, 2, KINDS_FULL), 1, {}))
